@@ -640,6 +640,7 @@ type repoGen struct {
 	adds        int
 	maxLive     int
 	backsteps   int // times the clock stepped back
+	bulk        int // snapshot profile: additions still to come in the opening burst
 	sqlFaults   bool // impl entfault: some calls get one of their SQL statements failed (ctx flag "3k")
 }
 
@@ -764,7 +765,8 @@ func (g *repoGen) param(forAdd bool) def.TaskUpdateParam {
 	case 0:
 		p.Deadline = option.Some(option.None[time.Time]())
 	case 1:
-		p.Deadline = option.Some(option.Some(g.schedTime().Add(time.Hour)))
+		// mostly ahead of the clock; now and then already past (a task whose deadline has expired is still a task)
+		p.Deadline = option.Some(option.Some(g.schedTime().Add(rng.Pick(r, []time.Duration{time.Hour, time.Hour, time.Hour, -time.Hour, 3 * time.Millisecond}))))
 	}
 	return p
 }
@@ -825,6 +827,20 @@ func (g *repoGen) next(dump []def.Task, issued []string, impl string) string {
 		if t.State == def.TaskScheduled || t.State == def.TaskDispatched {
 			live++
 		}
+	}
+	if g.bulk > 0 {
+		// a burst of additions with tied and DISORDERED creation times (same reading / one ms on / one ms back): a
+		// snapshot of more than a dozen tasks whose created_at order differs from their insertion order
+		g.bulk--
+		g.adds++
+		switch r.Intn(3) {
+		case 1:
+			g.now = g.now.Add(time.Millisecond)
+		case 2:
+			g.now = g.now.Add(-time.Millisecond)
+			g.backsteps++
+		}
+		return fmt.Sprintf("add %s %s t%d %s", c, proto.Time(g.now), g.adds, proto.Param(g.param(true)))
 	}
 	w := r.Intn(100)
 	if g.findHeavy && len(issued) >= 3 && r.Chance(2, 3) {
@@ -1022,6 +1038,11 @@ func cmdRepo(args []string) {
 				snapAt = 3 + r.Intn(c.length/2)
 				lodAt = snapAt + 1
 				lodKind = rng.Pick(r, []string{"raw", "json", "zone"})
+				if r.Chance(1, 6) && c.length >= 36 {
+					g.bulk = 14 + r.Intn(8)
+					snapAt = g.bulk + 2 + r.Intn(4)
+					lodAt = snapAt + 1
+				}
 				if r.Chance(1, 4) {
 					// the snapshot is loaded later, into the repository in use (which has moved on); now and then it is the
 					// snapshot of the still EMPTY repository
